@@ -6,6 +6,11 @@ use verif_harness::common::*;
 
 fn main() {
     run_cases(|input| {
+        if input["mode"].as_str() == Some("bitmap") {
+            let adds: Vec<u16> = input["adds"].as_array().map(|a| a.iter().map(|x| x.as_u64().unwrap_or(0) as u16).collect()).unwrap_or_default();
+            let probe: Vec<u16> = input["probe"].as_array().map(|a| a.iter().map(|x| x.as_u64().unwrap_or(0) as u16).collect()).unwrap_or_default();
+            return rdata::observe_bitmap(&adds, &probe);
+        }
         let msg = bytes_of_wide(&input["msg"]);
         let may = input["mayCompress"].as_bool().unwrap_or(false);
         let strict = input["strictOpts"].as_bool().unwrap_or(false);
